@@ -4,7 +4,12 @@ EXTENDS CellMLAbstract, TraceIO, LoggerObs, KnownFindings
 VARIABLE l
 Init == l = 1
 Logs(ev) == LogCoherent(ev.vlog) /\ LogCoherent(ev.prlog) /\ LogCoherent(ev.plog)
+\* an exponent / multiplier that is no number cannot be written down: such a model has to be refused by the validator, and only a
+\* model that it accepts has to read back
+NotANumber == {"inf", "-inf", "nan"}
+MustReadBack(ev) == ev.valid \/ (ev.fv.exp \notin NotANumber /\ ev.fv.mult \notin NotANumber)
 Problems(ev) ==
+    IF ~MustReadBack(ev) THEN (IF Logs(ev) /\ ev.unchangedByPrint THEN {} ELSE {"incoherent issue list / printer modified the model"}) ELSE
     LET am == ModelOf(ev.fv) IN
     (IF SameContent(ev.built, am) THEN {} ELSE {"harness: built model differs from the abstract model"})
     \cup (IF ev.printedLen > 0 THEN {} ELSE {"printer returned an empty document"})
